@@ -257,3 +257,15 @@ Proof.
   rewrite E. cbn [shape_printable]. split; [eexists; reflexivity|].
   repeat constructor; try (apply qv_printable; vm_compute; reflexivity); apply cnt_printable; vm_compute; reflexivity.
 Qed.
+
+(* duplicate removal (applied by write() before printing) rounds every time column on exactly the grid the file
+   prints it on, and every amplitude/offset column to the printed number of digits: a coarser digit in the tuples of
+   Sequence.remove_duplicates (Gen/GenDedup.v) would lose precision the format has, and these examples stop checking *)
+From PV Require Import Gen.GenDedup Proofs.FileDedup.
+Example C01_dedup_digits_match_columns :
+  refine_kinds dedup_digits_rf (tl sec_rf) = [3; 1; 1; 1; 4; 3; 3]%Z /\
+  refine_kinds dedup_digits_grad (tl sec_grad) = [3; 2; 2; 1]%Z /\
+  refine_kinds dedup_digits_grad (tl sec_trap) = [3; 1; 1; 1; 1]%Z /\
+  refine_kinds dedup_digits_adc (tl sec_adc) = [1; 1; 1; 3; 3]%Z /\
+  (dedup_digits_shape =? shape_sample_fmt)%Z = true.
+Proof. repeat split; vm_compute; reflexivity. Qed.
